@@ -1,6 +1,6 @@
 #!/bin/bash
 # Runs every seeded change against the check of its property (quick tier) and prints one line per seed.
-# Needs exclusive use of /repo (patches are applied there and reverted).
+# Without --scratch DIR (first argument pair) it needs exclusive use of /repo (patches are applied there and reverted).
 cd /verif
 for d in seeded/*/; do
   n=$(basename $d)
